@@ -24,6 +24,8 @@ pub fn run(tier: Tier) -> i32 {
                 p.ext_bias = true;
                 p.kind_mix = true;
                 p.xml_lang = 1;
+                // the same local name in several namespaces: an (unprefixed) base must still be the own one
+                p.collide = true;
                 p.colliding_abbrev = true;
             },
             only: Some(&derived),
